@@ -1,14 +1,13 @@
 #!/bin/sh
-# Offline setup: build the Lean library (model, lemmas, property theorems, driver modules) and warm
-# the compiled-extension cache for the current basis_eval.pyx.  Everything comes from files on disk.
+# Offline setup: rebuild the implementation overlay (warms the compiled-extension cache), run the
+# translators once (generated Lean modules), build the whole Lean library (model, lemmas, property
+# theorems, driver modules).  Everything comes from files on disk.
 cd "$(dirname "$0")" || exit 2
-export OMP_NUM_THREADS=1 OPENBLAS_NUM_THREADS=1
-/venv/bin/python -c "import sys; sys.path.insert(0,'harness'); from vlib import leanproof; leanproof.write_driver_all(); leanproof.write_root()" || exit 1
-( cd lean && lake build Splipy ) || exit 1
-/venv/bin/python - <<'PY' || exit 1
-import sys
-sys.path.insert(0, 'harness')
-from vlib import impl
-sp, info = impl.load()
-print('overlay ok', info)
-PY
+export OMP_NUM_THREADS=1 OPENBLAS_NUM_THREADS=1 MKL_NUM_THREADS=1
+mkdir -p lean/Splipy/Generated
+# generated modules imported by driver files need the model built first (hooks call `lake build`)
+( cd lean && lake build Splipy.Model.Object Splipy.Proto.Val ) || exit 1
+/venv/bin/python harness/regen_all.py || echo "warning: a translator hook failed (reported by the property's own check)"
+( cd lean && lake build Splipy.Driver.All ) || exit 1
+( cd lean && lake build Splipy ) || echo "warning: some library modules failed to build (each property's check reports its own)"
+exit 0
